@@ -66,6 +66,45 @@ def clear_process_caches() -> None:
             pass
 
 
+_FP_BASE: list = [None]
+
+
+def process_globals_fingerprint() -> str:
+    """Digest of the CONTENT of every module-level and class-level dict / list / set of the jinja2 modules (default
+    policies, default filter tables, class attributes ...), caches excluded.  It is never compared with an expected
+    value; it only tells a check that something process-global now differs from what a freshly started interpreter
+    has, so that in-process "isolated" references are no longer isolated and pristine interpreters must be asked."""
+    import sys
+
+    from jinja2.utils import LRUCache
+
+    from .core import digest
+    from .workload import snapshot
+
+    items = []
+    for name, mod in sorted(sys.modules.items()):
+        if mod is None or not (name == "jinja2" or name.startswith("jinja2.")) or name.startswith("jinja2._verif"):
+            continue
+        for k, v in sorted(vars(mod).items(), key=lambda kv: kv[0]):
+            if k.startswith("__"):
+                continue
+            if isinstance(v, (dict, list, set)) and not isinstance(v, LRUCache):
+                items.append((name, k, repr(snapshot(v))))
+            elif isinstance(v, type) and getattr(v, "__module__", None) == name:
+                for ck, cv in sorted(vars(v).items(), key=lambda kv: kv[0]):
+                    if isinstance(cv, (dict, list, set)) and not ck.startswith("__"):
+                        items.append((name, k + "." + ck, repr(snapshot(cv))))
+    return digest(items)
+
+
+def process_globals_changed() -> bool:
+    fp = process_globals_fingerprint()
+    if _FP_BASE[0] is None:
+        _FP_BASE[0] = fp
+        return False
+    return fp != _FP_BASE[0]
+
+
 def _ae_by_name(name):
     """Callable autoescape (like select_autoescape): only some template names are escaped."""
     return name in ("main", "inc")
